@@ -4,6 +4,10 @@
 //   seq <cap> <op>...                      one cache, operations applied sequentially
 //   conc <cap> <prefill> <prog0> <prog1>...  prefill sequentially, then one goroutine per prog
 //                                          (a prog is ops joined by ',', "-" when empty)
+//   concl <cap> <prefill> <prog0> ...      the same in lockstep: a spin barrier before every call,
+//                                          so that the i-th calls of all programs run at once
+//   concg <cap> <prefill> <prog0> ...      lockstep, and the harness holds c.Lock() until all calls
+//                                          of the round are pending
 //   probe <method> <x|r>                   hold c.Lock() (x) or c.RLock() (r) in the harness and
 //                                          call the method from another goroutine
 //   ops:  g:<k>   Get(k)      p:<k>:<v>   Put(k,v)     d   dump (harness, under c.Lock())
@@ -116,7 +120,35 @@ type c35Rec struct {
 	op, res   string
 }
 
-func c35Conc(capacity uint, prefill []string, progs [][]string) string {
+// c35Barrier is a sense-reversing spin barrier: the goroutines leave it within nanoseconds of
+// each other, so the calls that follow really run at the same time.
+type c35Barrier struct {
+	n     int32
+	count atomic.Int32
+	gen   atomic.Int32
+}
+
+func (b *c35Barrier) wait() {
+	g := b.gen.Load()
+	if b.count.Add(1) == b.n {
+		b.count.Store(0)
+		b.gen.Add(1)
+		return
+	}
+	for i := 0; b.gen.Load() == g; i++ {
+		if i > 3000 {
+			runtime.Gosched()
+		}
+	}
+}
+
+// mode "conc": free running; "concl": a barrier before every call (round i = the i-th call of
+// every program, all at once); "concg": as concl, and the harness holds c.Lock() until every
+// goroutine of the round has stamped its call, so that all calls of a round are pending together
+// whatever the machine load is.
+func c35Conc(capacity uint, prefill []string, progs [][]string, mode string) string {
+	lockstep := mode != "conc"
+	gate := mode == "concg"
 	c := NewLRUCache[uint64, uint64](capacity)
 	var clock atomic.Uint64
 	var all []c35Rec
@@ -127,27 +159,59 @@ func c35Conc(capacity uint, prefill []string, progs [][]string) string {
 	}
 	T := len(progs)
 	recs := make([][]c35Rec, T)
-	var ready atomic.Int32
-	var start atomic.Bool
+	rounds := 0
+	for _, p := range progs {
+		if len(p) > rounds {
+			rounds = len(p)
+		}
+	}
+	bar := &c35Barrier{n: int32(T)}
+	if gate {
+		bar.n++ // the harness goroutine takes part
+	}
+	var called atomic.Int32
 	var wg sync.WaitGroup
 	for t := 0; t < T; t++ {
 		wg.Add(1)
 		go func(t int) {
 			defer wg.Done()
-			ready.Add(1)
-			for !start.Load() { // spin barrier: all goroutines leave it within nanoseconds
+			if !lockstep {
+				bar.wait()
 			}
-			for _, op := range progs[t] {
+			for i := 0; i < rounds; i++ {
+				if lockstep {
+					bar.wait()
+				}
+				if i >= len(progs[t]) {
+					continue
+				}
+				op := progs[t][i]
 				k := clock.Add(1)
+				called.Add(1)
 				r := c35Do(c, op)
 				recs[t] = append(recs[t], c35Rec{t, k, clock.Add(1), op, r})
 			}
 		}(t)
 	}
-	for int(ready.Load()) < T {
-		runtime.Gosched()
+	if gate {
+		want := int32(0)
+		for i := 0; i < rounds; i++ {
+			for t := 0; t < T; t++ {
+				if i < len(progs[t]) {
+					want++
+				}
+			}
+			c.Lock()
+			bar.wait()
+			for called.Load() < want {
+				runtime.Gosched()
+			}
+			for j := 0; j < 3; j++ {
+				runtime.Gosched()
+			}
+			c.Unlock()
+		}
 	}
-	start.Store(true)
 	wg.Wait()
 	for t := 0; t < T; t++ {
 		all = append(all, recs[t]...)
@@ -221,12 +285,12 @@ func c35Run(in string) string {
 			return "-"
 		}
 		return strings.Join(out, " ")
-	case "conc":
+	case "conc", "concl", "concg":
 		progs := make([][]string, 0, len(f)-3)
 		for _, p := range f[3:] {
 			progs = append(progs, c35Prog(p))
 		}
-		return c35Conc(uint(vu.UnX(f[1])), c35Prog(f[2]), progs)
+		return c35Conc(uint(vu.UnX(f[1])), c35Prog(f[2]), progs, f[0])
 	case "probe":
 		return c35Probe(f[1], f[2])
 	}
@@ -291,10 +355,7 @@ func c35GenConc(r *vu.RNG) string {
 		nkeys = 2
 	}
 	T := r.Range(2, 8)
-	per := r.Range(2, 7)
-	if T > 5 {
-		per = r.Range(2, 4)
-	}
+	per := r.Range(3, 64/T)
 	pre := make([]string, 0, capacity)
 	for k := 0; k < capacity && r.Chance(4, 5); k++ {
 		pre = append(pre, fmt.Sprintf("p:%x:%x", k, k+1))
@@ -315,7 +376,8 @@ func c35GenConc(r *vu.RNG) string {
 		}
 		parts = append(parts, strings.Join(ops, ","))
 	}
-	return fmt.Sprintf("conc %x %s", capacity, strings.Join(parts, " "))
+	kw := []string{"conc", "concl", "concl", "concg", "concg"}[r.Intn(5)]
+	return fmt.Sprintf("%s %x %s", kw, capacity, strings.Join(parts, " "))
 }
 
 func c35Gen(r *vu.RNG, n int, emit func(string)) {
